@@ -618,6 +618,30 @@ func runSignCase(c *kit.Ctx, id string, idx int) {
 				c.End("")
 				return
 			}
+			// the signer the node itself builds (block import, pool, RPC all go through MakeSigner)
+			// follows the process' network id - also when that id is (re)set after a first use
+			if net == params.MainNetId || net == params.TestNetId || net == params.NetworkIdForTestCase {
+				var got common.Address
+				var merr error
+				other := uint64(params.TestNetId)
+				if net == other {
+					other = params.MainNetId
+				}
+				kit.Guard(func() {
+					params.InitNetworkId(other)
+					types.MakeSigner(nil) // first use under another id
+					params.InitNetworkId(net)
+					got, merr = types.Sender(types.MakeSigner(nil), tx)
+					params.InitNetworkId(params.NetworkIdForTestCase)
+				})
+				c.Count("makesigner_network_switches", 1)
+				if merr != nil || got != key.addr {
+					c.Violation("makesigner-does-not-follow-network-id", fmt.Sprintf("after InitNetworkId(%d), MakeSigner used, InitNetworkId(%d): Sender(MakeSigner(), tx signed for network %d) = %x, err=%v; signing key has address %x", other, net, net, got, merr, key.addr),
+						sigWitness{What: "MakeSigner", Fields: showFields(f), Net: net, V: o.v.String(), R: o.r.Text(16), S: o.s.Text(16), Signer: key.addr.Hex()})
+					c.End("")
+					return
+				}
+			}
 			// sender straight from the signed object
 			got, err := types.Sender(types.NewYouSigner(net), tx)
 			if err != nil || got != key.addr {
